@@ -77,17 +77,42 @@ def h_general_roundtrip():
 
 
 def h_7797_compact_roundtrip():
+    """b64=false: every payload octet string is serialized (attached when URL-safe text, detached otherwise) and
+    the produced token verifies, attached or with the payload restored."""
     key, k = oct_key("k")
     p = sym_bytes("p")
     h = {"alg": "HS256", "b64": False, "crit": ["b64"]}
     out = call(s7797_compact, h, p, key, ["HS256"])
-    if out.raised(UnicodeDecodeError) and known("F-C03-1"):
-        return
     check(out.returned, "7797 compact (b64=false): serialization returns for every payload octet string")
-    attached = call(d7797_compact, out.value, key, None, ["HS256"])
-    detached = call(d7797_compact, out.value, key, p, ["HS256"])
-    check((attached.returned and py_eq(attached.value.payload, p)) or (len(p) > 0 and detached.returned and py_eq(detached.value.payload, p)),
-          "7797 compact: the produced token verifies (attached, or detached with the payload restored) and yields the payload")
+    hs = spec_b64u(spec_utf8(spec_jsonc(h)))
+    sig = spec_b64u(spec_hmac("sha256", k, hs + b"." + p))
+    if ascii_only(p) and py_urlsafe_match(p):
+        check(py_eq(out.value, (hs + b"." + p + b"." + sig).decode("ascii")),
+              "7797 compact: a URL-safe payload is attached: header '.' payload '.' B64U(MAC(header '.' payload))")
+    elif ascii_only(p):
+        check(py_eq(out.value, (hs + b".." + sig).decode("ascii")),
+              "7797 compact: any other payload is detached: header '..' B64U(MAC(header '.' payload))")
+
+
+def h_7797_compact_verify_attached():
+    key, k = oct_key("k")
+    p = sym_bytes("p")
+    assume(ascii_only(p))
+    assume(py_urlsafe_match(p))
+    assume(b"." not in p)
+    t = s7797_compact({"alg": "HS256", "b64": False, "crit": ["b64"]}, p, key, ["HS256"])
+    back = call(d7797_compact, t, key, None, ["HS256"])
+    check(back.returned and py_eq(back.value.payload, p), "7797 compact: an attached token verifies and yields the payload")
+
+
+def h_7797_compact_verify_detached():
+    key, k = oct_key("k")
+    p = sym_bytes("p")
+    assume(len(p) > 0)
+    hs = spec_b64u(b'{"alg":"HS256","b64":false,"crit":["b64"]}')
+    t = (hs + b".." + spec_b64u(spec_hmac("sha256", k, hs + b"." + p))).decode("ascii")
+    back = call(d7797_compact, t, key, p, ["HS256"])
+    check(back.returned and py_eq(back.value.payload, p), "7797 compact: a detached token verifies once the payload is restored")
 
 
 def h_detach_content_compact():
@@ -148,4 +173,12 @@ def h_ecdsa_int_codec():
 
 
 HARNESSES = [h_compact_roundtrip, h_flattened_roundtrip, h_general_roundtrip, h_7797_compact_roundtrip,
+             h_7797_compact_verify_attached, h_7797_compact_verify_detached,
              h_detach_content_compact, h_sign_verify_rsa, h_sign_verify_ec, h_sign_verify_eddsa, h_sign_verify_hmac]
+
+
+h_compact_roundtrip.seeds = [{"alg": 0, "k": b"secret", "with_kid": 1, "kid": "k\u00e9y-\u4e2d", "with_typ": 1, "typ": "J\u00fcT", "p": b"\xff\x00payload"}]
+h_flattened_roundtrip.seeds = [{"alg": 0, "k": b"secret", "placement": 0, "kid": "k\u00e9y", "p": b"x"}, {"alg": 0, "k": b"secret", "placement": 2, "kid": "k\u00e9y", "p": b"x"}]
+h_general_roundtrip.seeds = [{"k": b"secret", "kid": "k\u00e9y", "p": b"x"}]
+h_7797_compact_roundtrip.seeds = [{"k": b"secret", "p": b"a.b"}, {"k": b"secret", "p": b"ab~c"}, {"k": b"s", "p": b"\xff"}, {"k": b"s", "p": b"a b"}]
+h_7797_compact_verify_attached.seeds = [{"k": b"secret", "p": b"ab~c"}]
